@@ -327,6 +327,49 @@ def attribute_vs_item_on_container_subclasses(col):
                               % (short(mk()), ', ignore_missing=True' if ignore else '', desc, got if not got.ok else 'returned', _attr_state(t), want), None)
 
 
+class WithClassDefault:
+    """`flag` is visible on every instance (class-level default) but is an instance attribute only after it was set"""
+    flag = 'class-default'
+
+    def __init__(self, own):
+        if own:
+            self.flag = 'own'
+
+
+class ReadOnlyProp:
+    @property
+    def ro(self):
+        return 1
+
+
+def attributes_that_are_visible_but_not_deletable(col):
+    """"missing" for a final T.attr step is what `del obj.attr` says (AttributeError), not what hasattr() says: a class-level
+    default without instance attribute, a property without deleter"""
+    cases = [('class-level default, no instance attribute', lambda: {'o': WithClassDefault(False)}, lambda: T['o'].flag, False),
+             ('class-level default shadowed by an instance attribute', lambda: {'o': WithClassDefault(True)}, lambda: T['o'].flag, True),
+             ('property without deleter', lambda: {'o': ReadOnlyProp()}, lambda: T['o'].ro, False),
+             ('behind a star, second match lacks the instance attribute', lambda: {'os': [WithClassDefault(True), WithClassDefault(False), WithClassDefault(True)]},
+              lambda: T['os'].__star__().flag, 'partial')]
+    for desc, mk, spec, deletable in cases:
+        for ignore in (False, True):
+            t = mk()
+            got = call(delete, t, spec(), ignore_missing=ignore)
+            col.case(('visible-not-deletable', desc, ignore), True)
+            col.count('deletions_attempted')
+            objs = t['os'] if 'os' in t else [t['o']]
+            own = ['flag' in getattr(o, '__dict__', {}) for o in objs]
+            if deletable is True or (deletable == 'partial' and ignore):
+                ok = got.ok and not any(own)
+            elif ignore:
+                ok = got.ok
+            else:
+                ok = not got.ok and isinstance(got.exc, PathDeleteError)
+            if not ok:
+                col.violation('C12/visible-but-undeletable-attribute:%s' % ('ignore-missing' if ignore else 'strict'),
+                              'delete(.., %s%s) [%s]: %r ; instance attributes left: %s'
+                              % (short(spec()), ', ignore_missing=True' if ignore else '', desc, got if not got.ok else 'returned', own), None)
+
+
 def reused_delete_object(col, rng):
     """one Delete object applied to parents of different kinds, in every order, and one wildcard over mixed kinds"""
     import itertools
@@ -366,6 +409,7 @@ def run(ctx):
     wildcard_deletes(col, rng)
     if ctx.shard == 0:
         attribute_vs_item_on_container_subclasses(col)
+        attributes_that_are_visible_but_not_deletable(col)
         reused_delete_object(col, rng)
     for i in range(ctx.n(350, 3500)):
         one_target(col, rng)
